@@ -321,7 +321,8 @@ def find_closures(toks: List[Tok], lo: int, hi: int):
 
 
 class Splicer:
-    def __init__(self, repo: str, contracts_dir: str):
+    def __init__(self, repo: str, contracts_dir: str, force_external=None):
+        self.force_external = dict(force_external or {})   # fn key -> reason: emit unverified from the start
         self.repo = repo
         self.cdir = contracts_dir
         self.sources: Dict[str, rsparse.SourceFile] = {}
@@ -427,6 +428,8 @@ class Splicer:
         n_lines, n_log = len(self.lines), len(self.log)
         gkey = kv.get("as", key)
         try:
+            if gkey in self.force_external and not decl_only:
+                raise SpliceError(self.force_external[gkey])
             return self._do_fn(key, kv, sections, tmpl_file, tmpl_line, decl_only=decl_only)
         except SpliceError as e:
             if decl_only or "spliced twice" in str(e) or "not found in /repo" in str(e) or "is not a fn" in str(e):
